@@ -15,6 +15,18 @@ def _sha(p):
     return hashlib.sha256(open(p, "rb").read()).hexdigest()
 
 
+def _age(path, secs=1_500_000_000):
+    """set every date of the header and of the table entries to an old instant (independent struct patch): a reader that
+    refreshes an access date then changes bytes for sure, whatever the resolution of the clock"""
+    import struct
+    raw = bytearray(open(path, "rb").read())
+    n = struct.unpack_from("<i", raw, 20)[0]
+    struct.pack_into("<iii", raw, 32, secs, secs, secs)
+    for i in range(n):
+        struct.pack_into("<iii", raw, 64 + 288 * i + 16, secs, secs + 1, secs + 2)
+    open(path, "wb").write(bytes(raw))
+
+
 def _file_with_blocks(d, rng, name="a.tdf"):
     from basictdf import Tdf
     p = os.path.join(d, name)
@@ -25,9 +37,15 @@ def _file_with_blocks(d, rng, name="a.tdf"):
     return p
 
 
-def mutators(rng):
+def mutators(rng, stored=None):
     from basictdf.tdfBlock import BlockType
-    return {
+    same = {}
+    if stored:
+        # the request carries exactly what the file already holds: still a mutation request, refused like any other
+        same = {"replace_block(the stored block)": lambda t: t.replace_block(stored["events"]),
+                "events=(the stored block)": lambda t: setattr(t, "events", stored["events"]),
+                "emg=(the stored block)": lambda t: setattr(t, "emg", stored["emg"])}
+    return {**same, **{
         "add_block": lambda t: t.add_block(gen.optical(rng, 1)),
         "remove_block": lambda t: t.remove_block(BlockType.temporalEventsData),
         "replace_block": lambda t: t.replace_block(gen.events(rng, 1)),
@@ -36,7 +54,7 @@ def mutators(rng):
         "force_platforms_data=": lambda t: setattr(t, "force_platforms_data", gen.plats_data(rng, 1, 3)),
         "events=": lambda t: setattr(t, "events", gen.events(rng, 1)),
         "emg=": lambda t: setattr(t, "emg", gen.emg(rng, 1, 3)),
-    }
+    }}
 
 
 def readers():
@@ -59,6 +77,7 @@ def check_c08(seed, tier, root=None):
     d = tempfile.mkdtemp(prefix="verif_c08_")
     try:
         base = _file_with_blocks(d, rng)
+        _age(base)
         other = os.path.join(d, "other.tdf")
         shutil.copyfile(base, other)
         work = os.path.join(d, "w.tdf")
@@ -107,7 +126,8 @@ def check_c08(seed, tier, root=None):
             raise KeyError(mode)
         refused_modes = ["no context", "allow_write without context", "read-only context", "context after a write context", "no context after a write context",
                          "context after a write context left by an exception", "no context after a failed reader", "no context after reading"]
-        for mname, call in mutators(rng).items():
+        stored = dict(events=Tdf(base).events, emg=Tdf(base).emg)
+        for mname, call in mutators(rng, stored).items():
             for mode in refused_modes:
                 n += 1
                 case = dict(mutator=mname, mode=mode)
@@ -253,7 +273,7 @@ def check_c17(seed, tier, root=None):
         # next to siblings that differ only in the extension
         def dir_state(dd):
             return {f: _sha(os.path.join(dd, f)) for f in sorted(os.listdir(dd))}
-        for stem in ("trial01", "trial01.tdf", "trial01.TDF", "trial01.bin", "trial01.tdf.bak", ".hidden"):
+        for stem in ("trial01", "trial01.tdf", "trial01.TDF", "trial01.bin", "trial01.tdf.bak", ".hidden", "n" * 236 + ".tdf", "x" * 250, "日本語の試験.tdf", "Ωmega trial.tdf"):
             for op in ("new", "copy"):
                 for present in (False, True):
                     n += 1
@@ -261,6 +281,8 @@ def check_c17(seed, tier, root=None):
                     for sib in ("trial01", "trial01.tdf", "trial01.TDF", "trial01.bin", "trial01.tdf.bak", ".hidden", "trial01.tdf.tdf", "trial01.bin.tdf"):
                         if sib != stem or present:
                             shutil.copyfile(src, os.path.join(d2, sib)) if (len(sib) % 2) else open(os.path.join(d2, sib), "wb").write(b"sibling " + sib.encode())
+                    if present and not os.path.exists(os.path.join(d2, stem)):
+                        shutil.copyfile(src, os.path.join(d2, stem))
                     before = dir_state(d2)
                     p = os.path.join(d2, stem)
                     case = dict(op=op, target=("existing " if present else "absent ") + stem)
@@ -282,10 +304,30 @@ def check_c17(seed, tier, root=None):
                         if created:
                             fails.append(_f("C17", "C17.clobber", f"refused {op} onto existing {stem!r} created {created}", case, seed))
                     else:
-                        if raised is not None:
+                        if isinstance(raised, FileExistsError):
+                            # refusing is always safe (a variant that normalises the name may find its final target taken by a
+                            # sibling); that creation works at all is the 'fresh.tdf' case below
+                            if created:
+                                fails.append(_f("C17", "C17.clobber", f"refused {op} to {stem!r} created {created}", case, seed))
+                        elif raised is not None:
                             fails.append(_f("C17", "C17.create", f"{op} to the absent path {stem!r} raised {raised!r}", case, seed))
                         elif len(created) != 1:
                             fails.append(_f("C17", "C17.create", f"{op} to the absent path {stem!r} created {created} instead of exactly one new file", case, seed))
+                        else:
+                            made = open(os.path.join(d2, created[0]), "rb").read()
+                            try:
+                                tab = parse_table(made)
+                                if op == "new" and (len(made) != 4096 or tab["nEntries"] != 14 or any(e["type"] != 0 or e["size"] != 0 or e["offset"] != 4096 for e in tab["entries"])):
+                                    fails.append(_f("C17", "C17.empty_container", f"new({stem[:20]!r}..) did not write the canonical empty container ({len(made)} bytes)", case, seed))
+                                if op == "copy" and made != open(src, "rb").read():
+                                    fails.append(_f("C17", "C17.copy_identical", f"copy({stem[:20]!r}..) is not byte-identical to the source", case, seed))
+                            except Exception as e:
+                                fails.append(_f("C17", "C17.empty_container", f"{op}({stem[:20]!r}..) left a file that cannot be parsed: {e!r}", case, seed))
+                    if raised is not None and not isinstance(raised, FileExistsError) and not present:
+                        left = [f for f in after if f not in before]
+                        if left:
+                            fails.append(_f("C17", "C17.create", f"{op}({stem[:20]!r}..) failed with {type(raised).__name__} and left {len(left)} file(s) behind "
+                                            f"({os.path.getsize(os.path.join(d2, left[0]))} bytes): not a well-formed container", case, seed))
                     shutil.rmtree(d2, ignore_errors=True)
         # new: canonical empty container
         n += 1
